@@ -12,7 +12,7 @@ exit 3  internal disagreement / harness no longer builds: the machinery, not nin
 import os, sys, json, time, shutil, tempfile, subprocess, hashlib, re, collections, argparse
 HERE = os.path.dirname(os.path.abspath(__file__)); VERIF = os.path.dirname(HERE)
 sys.path.insert(0, HERE)
-import irbuild, explore, catalog
+import irbuild, explore, forkexplore, catalog
 
 def load_known(prop):
     p = os.path.join(VERIF, 'known_findings.json')
@@ -44,13 +44,14 @@ def run_job(prop, job, tier, builder, seed, log):
     t0 = time.time()
     name = job['name']; defines = job_defines(job, tier)
     units = job.get('units', irbuild.PIPELINE)
-    known = [k for k in load_known(prop) if k.get('job', name) == name]
+    known = [k for k in load_known(prop) if re.fullmatch(k.get('job', name), name)]
     tb = time.time()
     ll = builder.link(prop + '_' + name, job['harness'], units, defines, stubs=job.get('stubs', True), iquote=job.get('iquote', False))
     build_s = time.time() - tb
     lim = dict(job.get('limits', {})); lim.update(job.get(tier, {}).get('limits', {}))
     opts = dict(max_steps=lim.get('max_steps', 20000000), max_depth=lim.get('max_depth', 400), known=known, hooks=tuple(job.get('hooks', ())))
-    ex = explore.explore(ll, workers=int(os.environ.get('VERIF_WORKERS', '16')), max_paths=lim.get('max_paths', 300000),
+    explorer = explore if os.environ.get('VERIF_EXPLORER') == 'pool' else forkexplore
+    ex = explorer.explore(ll, workers=int(os.environ.get('VERIF_WORKERS', '16')), max_paths=lim.get('max_paths', 300000),
                          time_limit=lim.get('time', 900), engine_opts=opts, seed=seed, stop_on_inconclusive=job.get('budget_overrun_is_violation', False))
     res = dict(job=name, defines=defines, units=list(units), build_s=round(build_s, 1), explore=ex, status='ok', messages=[], violations=[], known_hits=[],
                validated=0, native_mismatch=[])
